@@ -6,7 +6,9 @@ package main
 // inside the region makes the attempt roll back, and the branch forks as usual.
 
 import (
+	"fmt"
 	"go/types"
+	"os"
 	"strings"
 
 	"golang.org/x/tools/go/ssa"
@@ -24,8 +26,10 @@ type undoRec struct {
 }
 
 type arrival struct {
-	pred *ssa.BasicBlock
-	g    *Term
+	pred  *ssa.BasicBlock
+	g     *Term
+	ret   V // result value when the arm ended in a return (join == nil)
+	isRet bool
 }
 
 // ipdoms computes immediate post-dominators of a function's blocks (nil = exit).
@@ -142,7 +146,7 @@ func (fr *frame) tryIfConvert(in *ssa.If, c *Term) (ok bool) {
 	}
 	b := fr.block
 	join := ex.ipdoms(fr.fn)[b]
-	if join == nil {
+	if join == nil && (fr.defers != nil || fr.fn.Recover != nil) {
 		return false
 	}
 	outer := ex.undo
@@ -172,6 +176,33 @@ func (fr *frame) tryIfConvert(in *ssa.If, c *Term) (ok bool) {
 	budget := 64
 	arr := fr.runGuarded(b.Succs[0], b, c, join, &budget, map[*ssa.BasicBlock]bool{b: true})
 	arr = append(arr, fr.runGuarded(b.Succs[1], b, ts.Not(c), join, &budget, map[*ssa.BasicBlock]bool{b: true})...)
+	if join == nil {
+		// both sides return: merge the results
+		var acc V
+		for i := len(arr) - 1; i >= 0; i-- {
+			if !arr[i].isRet {
+				panic(ifcBail{"arm fell off without return"})
+			}
+			if i == len(arr)-1 {
+				acc = arr[i].ret
+			} else if acc == nil && arr[i].ret == nil {
+				// no results
+			} else {
+				acc = ex.iteGeneral(arr[i].g, arr[i].ret, acc)
+			}
+		}
+		if os.Getenv("GOSYM_IFCDEBUG") != "" {
+			fmt.Fprintf(os.Stderr, "IFC-RET in %s block %d: %d arrivals\n", fr.fn.Name(), b.Index, len(arr))
+			for _, a := range arr {
+				fmt.Fprintf(os.Stderr, "   from block %d ret=%v\n", a.pred.Index, ex.showV(a.ret))
+			}
+		}
+		fr.result = acc
+		fr.block = nil
+		fr.retByIfc = true
+		ex.ifcDone++
+		return true
+	}
 	fr.assignPhis(join, arr)
 	fr.prevBlock, fr.block = b, join
 	fr.skipPhis = true
@@ -179,8 +210,16 @@ func (fr *frame) tryIfConvert(in *ssa.If, c *Term) (ok bool) {
 	return true
 }
 
-func (fr *frame) snapshotEnvKeys() int { return len(fr.env) }
-func (fr *frame) restoreEnvKeys(int)   {}
+// the SSA environment is restored on a failed attempt: phi assignments made inside the region (e.g. of a loop
+// header reached through an inner join) must not leak into the fallback execution
+func (fr *frame) snapshotEnvKeys() map[ssa.Value]V {
+	m := make(map[ssa.Value]V, len(fr.env))
+	for k, v := range fr.env {
+		m[k] = v
+	}
+	return m
+}
+func (fr *frame) restoreEnvKeys(m map[ssa.Value]V) { fr.env = m }
 
 // assignPhis sets the phis of block j from guarded arrivals.
 func (fr *frame) assignPhis(j *ssa.BasicBlock, arr []arrival) {
@@ -274,7 +313,7 @@ func (ex *Exec) identicalV(a, b V) bool {
 // runGuarded executes block b (entered from pred) under guard g until `join` is reached on every path.
 func (fr *frame) runGuarded(b, pred *ssa.BasicBlock, g *Term, join *ssa.BasicBlock, budget *int, seen map[*ssa.BasicBlock]bool) []arrival {
 	if b == join {
-		return []arrival{{pred, g}}
+		return []arrival{{pred: pred, g: g}}
 	}
 	if seen[b] {
 		panic(ifcBail{"loop inside region"})
@@ -297,6 +336,23 @@ func (fr *frame) runGuardedFrom(b *ssa.BasicBlock, start int, g *Term, join *ssa
 		}
 		ex.steps++
 		switch in := instr.(type) {
+		case *ssa.Return:
+			if join != nil {
+				panic(ifcBail{"return inside a region with a join"})
+			}
+			var rv V
+			switch len(in.Results) {
+			case 0:
+			case 1:
+				rv = fr.get(in.Results[0])
+			default:
+				t := make(Tuple, len(in.Results))
+				for i, r := range in.Results {
+					t[i] = fr.get(r)
+				}
+				rv = t
+			}
+			return []arrival{{pred: b, g: g, ret: rv, isRet: true}}
 		case *ssa.Jump:
 			return fr.runGuarded(b.Succs[0], b, g, join, budget, seen)
 		case *ssa.If:
@@ -310,7 +366,12 @@ func (fr *frame) runGuardedFrom(b *ssa.BasicBlock, start int, g *Term, join *ssa
 			}
 			jin := ex.ipdoms(fr.fn)[b]
 			if jin == nil {
-				panic(ifcBail{"inner branch without join"})
+				if join != nil {
+					panic(ifcBail{"inner branch without join"})
+				}
+				a1 := fr.runGuarded(b.Succs[0], b, ts.And(g, c2), nil, budget, seen)
+				a2 := fr.runGuarded(b.Succs[1], b, ts.And(g, ts.Not(c2)), nil, budget, seen)
+				return append(a1, a2...)
 			}
 			a1 := fr.runGuarded(b.Succs[0], b, ts.And(g, c2), jin, budget, seen)
 			a2 := fr.runGuarded(b.Succs[1], b, ts.And(g, ts.Not(c2)), jin, budget, seen)
